@@ -242,7 +242,7 @@ def world_order_cases(ctx):
     from harness import worlds
     rng = ctx.rng
     cases = []
-    for i in range(8 if ctx.quick() else 150):
+    for i in range(14 if ctx.quick() else 150):
         w = worlds.gen_world(rng, n_layers=rng.choice([3, 4, 5]), tests_per_layer=(1, 4), kinds=["pass"], p_fault=0.0,
                              p_write=0.0)
         non_unit = [l for l in w["layers"] if l["kind"] != "unit"]
@@ -257,6 +257,7 @@ def world_order_cases(ctx):
                 l["name"] = nm
         o = {"verbose": rng.choice([0, 1]), "processes": 1, "argseed": rng.randint(0, 10 ** 6)}
         cases.append(cw.Case(w, o))
+    cases = [c for c in cw.corpus_cases(PROP) if c.opts.get("processes", 1) == 1] + cases
     cw.run_real_cases(ctx, cases)
     cw.run_models(ctx, cases)
     for c in cases:
